@@ -98,6 +98,15 @@ func NewMerger(less func(a, b *sam.Record) bool, src ...*Reader) (*Merger, error
 		m.readers[i] = &readers[i]
 	}
 	if m.less != nil {
+		// Only readers that have a record take part in the merge.
+		n := 0
+		for _, r := range m.readers {
+			if r.head != nil {
+				m.readers[n] = r
+				n++
+			}
+		}
+		m.readers = m.readers[:n]
 		heap.Init((*bySortOrderAndID)(m))
 	}
 
